@@ -90,9 +90,15 @@ func TestC29(t *testing.T) {
 			"session height chosen so that the real codec globals select the legacy or the index-binding parent hash (5 ways: mainnet below/above 30024, custom upgrade height below/above, TestMode -1). "+
 			"Every leaf index for n<=64, else boundary indices + 20 sampled. Oracle: GenerateProofs(i) validates against GenerateRoot with levels=ceil(log2 n) as ValidateProof derives it, "+
 			"(true,false); len(HashRanges)==levels; root.lower==0; root independent of input order; every input relay is the leaf of exactly one index (n<=64). "+
-			"1/3 of cases additionally go through Evidence.GenerateMerkleRoot/GenerateMerkleProof with a max-relays cut around n. non-trivial = n not a power of two (padding present)",
-		map[string]float64{"padding": 0.5, "power-of-two": 0.1, "one-pad": 0.1, "max-pad": 0.1, "legacy-hash": 0.25, "index-binding-hash": 0.4, "evidence-path": 0.2, "evidence-cut-applies": 0.08},
+			"1/3 of cases additionally go through Evidence.GenerateMerkleRoot/GenerateMerkleProof with a max-relays cut around n. A further share of the cases takes the honest proof through the real keeper "+
+			"and proof handler (claim of n relays stored, demanded index found by probing, proof for that index must be accepted and paid once: the keeper's own level count). non-trivial = n not a power of two (padding present)",
+		map[string]float64{"padding": 0.5, "power-of-two": 0.1, "one-pad": 0.1, "max-pad": 0.1, "legacy-hash": 0.25, "index-binding-hash": 0.4, "evidence-path": 0.2, "evidence-cut-applies": 0.08, "keeper-path": 0.08, "keeper-path-power-of-two": 0.015},
 		func(rt *rapid.T, c *harness.Case) {
+			// one case in six goes through the real keeper and proof handler instead (claim stored, demanded index probed)
+			if rapid.IntRange(0, 5).Draw(rt, "keeperPath") == 3 {
+				c29Keeper(rt, c)
+				return
+			}
 			f := drawFormat(rt)
 			n := drawTreeSize(rt, 8, 300)
 			seed := rapid.Uint64().Draw(rt, "seed")
@@ -209,3 +215,78 @@ func TestC29(t *testing.T) {
 }
 
 var _ = fmt.Sprintf
+
+// c29Keeper takes the honest proof through the real keeper and message handler: a claim of n distinct relays is stored,
+// the index the chain demands is found by black-box probing, and the proof generated for that index from the same set must
+// be accepted and paid exactly once - the level count the keeper derives from the claimed relay count included.
+func c29Keeper(rt *rapid.T, c *harness.Case) {
+	mode := c31Mode{"pre-upgrade", false}
+	if rapid.Bool().Draw(rt, "repbrActive") {
+		mode = c31Mode{"post-upgrade", true}
+	}
+	mode.apply()
+	defer resetGlobals()
+	salt := uint64(rapid.IntRange(1, 1<<30).Draw(rt, "chainSalt"))
+	const s = int64(2)
+	fx := newChainFx(1, 2, 6, salt)
+	for h := int64(1); h <= 5; h++ {
+		fx.begin(h)
+		fx.end(h)
+	}
+	ctx := fx.begin(6)
+	n := drawTreeSize(rt, 6, 70)
+	L := keeperLevels(n)
+	c.Label("keeper-path")
+	if isPow2(n) {
+		c.Label("keeper-path-power-of-two")
+	} else {
+		c.NonTrivial()
+	}
+	rs := fx.witness
+	rs.height = s
+	hdr := rs.header()
+	junk := pc.MsgClaim{SessionHeader: hdr, MerkleRoot: pc.HashRange{Hash: detBytes(32, "junkroot"), Range: pc.Range{Upper: 1 << 40}}, TotalProofs: int64(n),
+		FromAddress: fx.node, EvidenceType: pc.RelayEvidence, ExpirationHeight: 1 << 40}
+	if err := fx.k.SetClaim(ctx, junk); err != nil {
+		rt.Fatalf("harness: %v", err)
+	}
+	// the index the chain demands for this claim: probed with junk branches of every plausible length (the level count is
+	// the keeper's business, so the probe does not presuppose it)
+	req := -1
+	for idx := 0; idx < n && req < 0; idx++ {
+		for _, levels := range []int{L, L + 1, L - 1} {
+			if levels < 1 {
+				continue
+			}
+			mp := pc.MerkleProof{TargetIndex: int64(idx), Target: pc.HashRange{Hash: detBytes(32, "junktarget"), Range: pc.Range{Lower: 5, Upper: 9}}}
+			for i := 0; i < levels; i++ {
+				mp.HashRanges = append(mp.HashRanges, pc.HashRange{Hash: detBytes(32, "junksib", uint64(i)), Range: pc.Range{Lower: 9, Upper: 1 << 40}})
+			}
+			if r := fx.classifyProof(ctx, pc.MsgProof{MerkleProof: mp, Leaf: rs.relay(0), EvidenceType: pc.RelayEvidence}); r == "match" {
+				req = idx
+				break
+			}
+		}
+	}
+	if req < 0 {
+		rt.Fatalf("harness: no index passes the index check for n=%d", n)
+	}
+	input := shuffled(rs.proofs(n), salt)
+	root, _ := pc.GenerateRoot(s, cloneProofs(input))
+	mp, leaf := pc.GenerateProofs(s, cloneProofs(input), req)
+	c.Opf("keeper mode=%s chain-salt=%d n=%d levels=%d required-index=%d", mode.name, salt, n, len(mp.HashRanges), req)
+	claim := junk
+	claim.MerkleRoot = root
+	if err := fx.k.SetClaim(ctx, claim); err != nil {
+		rt.Fatalf("harness: %v", err)
+	}
+	burns, rewards := len(fx.pos.burns), len(fx.pos.rewards)
+	res := fx.handler(ctx, pc.MsgProof{MerkleProof: mp, Leaf: leaf, EvidenceType: pc.RelayEvidence}, nil)
+	_, claimStillThere := fx.k.GetClaim(ctx, fx.node, hdr, pc.RelayEvidence)
+	newBurns, newRewards := fx.pos.burns[burns:], fx.pos.rewards[rewards:]
+	wantReward := fmt.Sprintf("%s:%d", fx.node.String(), n)
+	if !res.IsOK() || len(newRewards) != 1 || newRewards[0] != wantReward || len(newBurns) != 0 || claimStillThere {
+		c.Violation("C29/handler/honest-proof-not-honoured", "mode=%s n=%d idx=%d levels=%d: the proof generated for the demanded index from the claimed set was not accepted and paid once: code %d log %s rewards %v burns %v claimStillThere=%v",
+			mode.name, n, req, len(mp.HashRanges), res.Code, res.Log, newRewards, newBurns, claimStillThere)
+	}
+}
